@@ -331,8 +331,8 @@ theorem C05_owner_password_unlocks (r : Nat) (hr : r = 2 ∨ r = 3 ∨ r = 4) (u
 
 /-- U, O, UE, OE as the writer computes them from the drawn salts and the drawn file key -/
 def writerDict5 (upw opw vsU ksU vsO ksO fileKey : Bytes) (p : Nat) (id : Bytes) : EncDict :=
-  let u := sha256 (upw ++ vsU) ++ vsU ++ ksU
-  let o := sha256 (opw ++ vsO ++ u) ++ vsO ++ ksO
+  let u := sha256 (pw56 upw ++ vsU) ++ vsU ++ ksU
+  let o := sha256 (pw56 opw ++ vsO ++ u) ++ vsO ++ ksO
   { r := 5, v := 5, cfm := some "AESV3", em := none, o := o, u := u, p := p, id := some id,
     ue := computeUE 5 upw u fileKey, oe := computeOE 5 opw o u fileKey }
 
@@ -342,22 +342,22 @@ theorem C05_user_password_unlocks_r5 (upw opw vsU ksU vsO ksO fileKey : Bytes) (
     (h1 : vsU.length = 8) (h2 : ksU.length = 8) (hk : fileKey.length = 32) :
     unlockUser (writerDict5 upw opw vsU ksU vsO ksO fileKey p id) upw = .key fileKey := by
   have hs : ∀ m, (sha256 m).length = 32 := sha256_length
-  have hu : (sha256 (upw ++ vsU) ++ vsU ++ ksU).length = 48 := by simp [hs, h1, h2]
-  have hv : vSalt (sha256 (upw ++ vsU) ++ vsU ++ ksU) = vsU := by
+  have hu : (sha256 (pw56 upw ++ vsU) ++ vsU ++ ksU).length = 48 := by simp [hs, h1, h2]
+  have hv : vSalt (sha256 (pw56 upw ++ vsU) ++ vsU ++ ksU) = vsU := by
     simp only [vSalt, List.append_assoc]
     rw [List.drop_left' (hs _), List.take_left' h1]
-  have hks : kSalt (sha256 (upw ++ vsU) ++ vsU ++ ksU) = ksU := by
+  have hks : kSalt (sha256 (pw56 upw ++ vsU) ++ vsU ++ ksU) = ksU := by
     simp only [kSalt]
     rw [List.drop_left' (by simp [hs, h1]), List.take_of_length_le (by omega)]
-  have ht : (sha256 (upw ++ vsU) ++ vsU ++ ksU).take 32 = sha256 (upw ++ vsU) := by
+  have ht : (sha256 (pw56 upw ++ vsU) ++ vsU ++ ksU).take 32 = sha256 (pw56 upw ++ vsU) := by
     simp only [List.append_assoc]; rw [List.take_left' (hs _)]
-  obtain ⟨c, hc1, hc2, hc3⟩ := aesCbcRaw_roundtrip aesOK (sha256 (upw ++ ksU ++ [])) fileKey (hs _) (by omega)
-  have htk : (sha256 (upw ++ ksU ++ [])).take 32 = sha256 (upw ++ ksU ++ []) := List.take_of_length_le (by rw [hs]; omega)
+  obtain ⟨c, hc1, hc2, hc3⟩ := aesCbcRaw_roundtrip aesOK (sha256 (pw56 upw ++ ksU ++ [])) fileKey (hs _) (by omega)
+  have htk : (sha256 (pw56 upw ++ ksU ++ [])).take 32 = sha256 (pw56 upw ++ ksU ++ []) := List.take_of_length_le (by rw [hs]; omega)
   simp only [unlockUser, writerDict5, handlerOf, show (5:Nat) ≥ 5 from by omega, if_true,
     validateUser56, entryPrefix, hu, show ¬ (48:Nat) < 48 from by omega, if_false, hashCode,
     List.take_of_length_le (Nat.le_of_eq hu), hv, hks, ht, computeUE, hk, htk, hc1, recoverUser56, hc3,
     List.append_nil, bind, Option.bind, pure, not_true_eq_false, or_self, ne_eq, decide_true] at hc1 hc2 htk ⊢
-  have htv : (sha256 (upw ++ vsU)).take 32 = sha256 (upw ++ vsU) := List.take_of_length_le (by rw [hs]; omega)
+  have htv : (sha256 (pw56 upw ++ vsU)).take 32 = sha256 (pw56 upw ++ vsU) := List.take_of_length_le (by rw [hs]; omega)
   simp [hc1, hc2, htk, hc3, hk, htv]
 
 /-! ## The trailer -/
